@@ -106,5 +106,10 @@ def register(claim, na):
           "`ignore` crate's business and is not decided.",
           "trusts the ignore crate's Gitignore matching, radix_trie::get_ancestor being a string-prefix lookup, Path::starts_with being component-wise",
           "DESIGN.md section 5 C03")
-    for p in ["C05", "C11", "C12", "C14", "C18"]:
+    claim("C18", "other", "THIR path enumeration of Command::to_spawnable (call order and argument provenance per Program arm), pattern-semantics table of wrappers, hook discipline on all spawn sites, THIR shape of the CLI's command interpretation",
+          "Decides: exec = Command::new(prog).args(args) with the fields themselves; shell = shell, options, optional program option, command, extra "
+          "args in that order on both paths; wrappers per SpawnOptions by pattern semantics; the builder passed to the hook is the one spawned at all "
+          "spawn sites; the CLI splits/joins the words as documented. Byte-for-byte hand-over is tokio/OS behaviour and not decided.",
+          "trusts tokio::process::Command::{new,arg,args}, process-wrap wrappers, std OsString handling", "DESIGN.md section 5 C18")
+    for p in ["C05", "C11", "C12", "C14"]:
         na(p, PENDING)
